@@ -46,7 +46,7 @@ func TestVerif_C13_stress(t *testing.T) {
 	defer rec.Flush()
 	e := c13NewEnv(t)
 	shard, _ := vh.Shard()
-	c := c13StressCase{Workers: 6 + 5*shard, Reloads: vh.Pick(2500, 40000)}
+	c := c13StressCase{Workers: 6 + 5*shard, Reloads: vh.Pick(2500, 20000)}
 	if vh.ReplayFile() != "" {
 		c.Note = "stress runs are not replayable step by step; the scenario is simply run again"
 	} else {
